@@ -4,7 +4,7 @@ from checks.engine_common import run_engine
 META = {
     "property_id": "C02",
     "technique": "Coq proof over a Gallina model of the build engine + history correspondence with fresh-process builds",
-    "level_text": 'Theorems: noop_rebuild (after a fully successful build a rebuild in a fresh process executes nothing, everything is reported up to date, state unchanged up to sim), irrelevant_edit (trees that agree on what the closure mentions build it identically), builds_depend_only_on_live_state, load_refresh_invisible. Correspondence + oracle: rebuilds of unchanged trees, same-content rewrites, cosmetic edits, other-package edits, edits inside source directories execute exactly what the model predicts; direct oracle: after a no-op rebuild, comment/whitespace edits of the function files of the closure (recursive and mutually recursive helpers below them move) plus same-content rewrites and timestamp changes of its sources execute nothing.',
+    "level_text": 'Theorems: noop_rebuild (after a fully successful build a rebuild in a fresh process executes nothing, everything is reported up to date, state unchanged up to sim), irrelevant_edit (trees that agree on what the closure mentions build it identically), builds_depend_only_on_live_state, load_refresh_invisible. Correspondence + oracle: rebuilds of unchanged trees, same-content rewrites, cosmetic edits, other-package edits, edits inside source directories execute exactly what the model predicts; direct oracle: after a no-op rebuild, comment/whitespace edits of the function files of the closure (recursive and mutually recursive helpers below them move) plus same-content rewrites and timestamp changes of its sources execute nothing; load-order family: many-package projects sharing helper modules directly and through other helper modules, the unchanged tree loaded under perturbed load schedules (barrier at module.exec, seeded sleeps at the registry/module hook points, Reload under project-lock contention, GOMAXPROCS 1-3) and built -- nothing may execute.',
     "level_note": "Trusted: as C01. Functions sharing a module file shift each other's bytecode indices when one is added or removed (outside the property's guarantees); the harness gives every function its own module file so that the semantic environment key is exact.",
     "design_ref": "DESIGN.md §6 C02",
 }
@@ -13,3 +13,48 @@ META = {
 def run(ctx):
     run_engine(ctx, "C02", "Build/Props_C02.v", ["C02 "], 2,
                'Oracle: a rebuild of the unchanged tree, and every build after timestamp-only, same-content, cosmetic and other-package edits, executes exactly what the model predicts (nothing for unchanged closures).')
+    load_order_family(ctx)
+
+
+def load_order_family(ctx):
+    """"... for every order in which packages and modules happen to load": projects whose packages share helper modules
+    directly and through other helper modules are built once and then loaded again and again under perturbed load
+    schedules (harness/overlay/root/zz_verif_c02_loadorder_test.go); no build of the unchanged tree may execute anything."""
+    import json
+    import os
+    from lib.vlib import HARNESS
+    out = os.path.join(ctx.tmp, "c02-loadorder.jsonl")
+    env = {"VERIF_OUT_LO": out, "VERIF_SEED": str(ctx.seed), "VERIF_LO_PROJECTS": "3" if ctx.quick() else "12",
+           "VERIF_LO_ITERS": "15" if ctx.quick() else "60"}
+    rc, o = ctx.go_overlay_test("", {"zz_verif_c02_loadorder_test.go": os.path.join(HARNESS, "overlay/root/zz_verif_c02_loadorder_test.go")},
+                                "^TestVerifC02LoadOrder$", env, timeout=1200)
+    recs = [json.loads(l) for l in open(out)] if os.path.exists(out) else []
+    how = "VERIF_SEED=%d go test -tags verif -overlay ... -run ^TestVerifC02LoadOrder$ . (harness/overlay/root/zz_verif_c02_loadorder_test.go)" % ctx.seed
+    if rc != 0 or not any(r["t"] == "END" for r in recs):
+        ctx.violation("the load-order harness failed to build or run against /repo (exit %d)" % rc,
+                      {"theorem_or_correspondence": "C02 load-order harness", "output": o[-3000:]}, found_input=False)
+        return
+    projs = {r["project"]: r for r in recs if r["t"] == "PROJ"}
+    iters = [r for r in recs if r["t"] == "ITER"]
+    dist = {}
+    for r in iters:
+        dist[r["mode"]] = dist.get(r["mode"], 0) + 1
+    ctx.coverage["correspondence"]["load_order_family"] = {
+        "projects": len(projs), "packages": sorted(p["packages"] for p in projs.values()),
+        "loads_then_builds_of_the_unchanged_tree": dist,
+        "spurious_executions": sum(1 for r in iters if r.get("executed")), "errors": sum(1 for r in iters if "error" in r)}
+    ctx.coverage["evaluations"] += len(iters)
+    bad = [r for r in iters if r.get("executed") or "error" in r]
+    if bad:
+        r = bad[0]
+        if "error" in r:
+            what = "a load or build of the unchanged tree failed: " + r["error"]
+        else:
+            what = "%d target(s) executed although nothing changed, e.g. %s (%s)" % (
+                len(r["executed"]), r["executed"][0]["target"], r["executed"][0]["reason"])
+            if r.get("modules_executed_more_than_once"):
+                what += "; in that load %s ran more than once" % ", ".join(r["modules_executed_more_than_once"][:3])
+        ctx.violation("implementation violates C02 oracle load-order:rebuild-of-an-unchanged-tree-executes-nothing (load %d of project %d, "
+                      "schedule perturbation '%s'): %s" % (r["iter"], r["project"], r["mode"], what),
+                      {"oracle": "load-order", "project_files": projs[r["project"]]["files"], "iteration": r,
+                       "failing_iterations": len(bad), "of": len(iters), "how": how})
